@@ -23,6 +23,13 @@ class Syntax:
         items += ["M=%s:%s:%d:%d:%d" % (enc(a), enc(b), int(n), int(ls), k) for (a, b, n, ls, k) in self.multi]
         return ";".join(items) if items else ";"
 
+    def wire_impl(self):
+        """what the implementation side is given: a configuration-expressible custom syntax goes through the
+        registry constructor that `[languages.X]` tables use (marker lists in declared order)"""
+        if getattr(self, "via_cfg", False) and all((not n) and (not ls) and k == 0 for (_, _, n, ls, k) in self.multi):
+            return "cfg:" + self.wire()
+        return self.wire()
+
     def coq(self):
         def cs(s):
             return "[" + ";".join(str(ord(c)) for c in s) + "]"
@@ -118,6 +125,9 @@ def rand_source(rng, sy, maxlines=9):
     n = rng.randint(0, maxlines)
     eol = rng.choice(["\n", "\n", "\n", "\r\n", "\r"])
     lines = [rand_line(rng, sy) for _ in range(n)]
+    if lines and rng.random() < 0.08:
+        # a first line that interpreters treat specially: its class must not depend on its line number
+        lines[0] = rng.choice(["#!/usr/bin/env run", "#!/bin/sh", "#![allow(x)]", "<?xml version=1?>", "\ufeffx = 1"])
     src = ""
     for i, l in enumerate(lines):
         src += l
@@ -145,7 +155,16 @@ def adversarial_syntax(rng):
             multi.append((a, b, False, False, 0))
         else:
             multi.append((a, b, rng.random() < 0.5, rng.random() < 0.3, rng.choice([0, 0, 1, 2])))
-    return Syntax(single, multi)
+    if rng.random() < 0.2:
+        # two block pairs whose openers overlap (one a prefix of the other, or equal) with different closers:
+        # which pair wins a tie is decided by declaration order
+        a = rng.choice(["{-", "/*", "<!--", "(*", "%{"])
+        multi = [(a, rng.choice(["-}", "*/", "-->", "*)", "%}"]), False, False, 0), (a + rng.choice(["#", "*", "", "!"]), rng.choice(["#-}", "**/", "!>", "x"]), False, False, 0)]
+        if rng.random() < 0.5:
+            multi.reverse()
+    sy = Syntax(single, multi)
+    sy.via_cfg = rng.random() < 0.6
+    return sy
 
 
 def rand_bytes(rng):
